@@ -100,6 +100,28 @@ impl GraphSpecs {
         // [C16.specs.undirected_create_missing]
         !r.directed, !r.multi_edges, !r.self_loops, r.missing_node_strategy == MissingNodeStrategy::Create,
 //@ end
+//@ extract fn src/graph_specs.rs directed ty=GraphSpecs props=C16
+//@ rewrite
+-> GraphSpecs
+//@ with
+-> (r: GraphSpecs)
+//@ spec
+    ensures
+        // [C16.specs.directed]
+        r.directed, !r.multi_edges, !r.self_loops, r.missing_node_strategy == MissingNodeStrategy::Error,
+        r.edge_dedupe_strategy == EdgeDedupeStrategy::Error, r.self_loops_false_strategy == SelfLoopsFalseStrategy::Error,
+//@ end
+//@ extract fn src/graph_specs.rs undirected ty=GraphSpecs props=C16
+//@ rewrite
+-> GraphSpecs
+//@ with
+-> (r: GraphSpecs)
+//@ spec
+    ensures
+        // [C16.specs.undirected]
+        !r.directed, !r.multi_edges, !r.self_loops, r.missing_node_strategy == MissingNodeStrategy::Error,
+        r.edge_dedupe_strategy == EdgeDedupeStrategy::Error, r.self_loops_false_strategy == SelfLoopsFalseStrategy::Error,
+//@ end
 }
 
 //@ extract fn src/generators/random.rs fast_gnp_random_graph_undirected props=C16,C20
@@ -262,6 +284,92 @@ vcast_skip(lr / lp)
     ensures
         // [C16.args.invalid_probability]
         fle(edge_probability, 0.0f64) || fle(1.0f64, edge_probability) ==> is_err_kind(r, ErrorKind::InvalidArgument),
+//@ end
+
+
+// ---- complete_graph: itertools' combinations(2) / permutations(2) sit behind local declarations with ASSUMED contracts (A5) ----
+// every element is a pair [a, b] of distinct numbers of 0..n (a < b for combinations), no pair twice, every such pair present
+pub open spec fn wanted_pair(n: i32, directed: bool, a: i32, b: i32) -> bool {
+    0 <= a < n && 0 <= b < n && (if directed { a != b } else { a < b })
+}
+pub open spec fn pairs_complete(n: i32, directed: bool, x: Seq<Vec<i32>>) -> bool {
+    &&& forall|k: int| 0 <= k < x.len() ==> (#[trigger] x[k])@.len() == 2 && 0 <= x[k]@[0] < n && 0 <= x[k]@[1] < n
+            && (if directed { x[k]@[0] != x[k]@[1] } else { x[k]@[0] < x[k]@[1] })
+    &&& forall|j: int, k: int| 0 <= j < k < x.len() ==> !((#[trigger] x[j])@[0] == (#[trigger] x[k])@[0] && x[j]@[1] == x[k]@[1])
+    &&& forall|a: i32, b: i32| #[trigger] wanted_pair(n, directed, a, b)
+            ==> exists|k: int| 0 <= k < x.len() && (#[trigger] x[k])@[0] == a && x[k]@[1] == b
+}
+#[verifier::external_body]
+pub fn vcombinations2(n: i32) -> (r: Vec<Vec<i32>>)
+    ensures pairs_complete(n, false, r@),
+{ unimplemented!() /* (0..n).combinations(2).collect::<Vec<Vec<i32>>>() in the repository */ }
+#[verifier::external_body]
+pub fn vpermutations2(n: i32) -> (r: Vec<Vec<i32>>)
+    ensures pairs_complete(n, true, r@),
+{ unimplemented!() /* (0..n).permutations(2).collect::<Vec<Vec<i32>>>() in the repository */ }
+pub open spec fn complete_specs(directed: bool) -> GraphSpecs {
+    GraphSpecs { directed: directed, edge_dedupe_strategy: EdgeDedupeStrategy::Error, missing_node_strategy: MissingNodeStrategy::Create,
+                 multi_edges: false, self_loops: false, self_loops_false_strategy: SelfLoopsFalseStrategy::Error }
+}
+pub open spec fn pair_edges(x: Seq<Vec<i32>>) -> Seq<Edge<i32, ()>> {
+    Seq::new(x.len(), |k: int| Edge { u: x[k]@[0], v: x[k]@[1], attributes: None, weight: f64_nan() })
+}
+// what complete_graph builds: new_from_nodes_and_edges(no nodes, one unweighted edge per pair of the complete pair list, create-missing specs)
+pub open spec fn complete_outcome(n: i32, directed: bool, x: Seq<Vec<i32>>, r: Result<Graph<i32, ()>, Error>) -> bool {
+    pairs_complete(n, directed, x) && nfne_rel(Seq::<i32>::empty(), pair_edges(x), complete_specs(directed), r)
+}
+
+//@ extract fn src/generators/classic.rs complete_graph props=C16,C20
+//@ rewrite
+-> Graph<i32, ()>
+//@ with
+-> (r: Graph<i32, ()>)
+//@ rewrite
+(0..num_nodes).combinations(2).collect::<Vec<Vec<i32>>>(),
+//@ with
+vcombinations2(num_nodes),
+//@ rewrite
+(0..num_nodes).permutations(2).collect::<Vec<Vec<i32>>>(),
+//@ with
+vpermutations2(num_nodes),
+//@ rewrite
+let nodes = vec![];
+//@ with
+let nodes: Vec<Arc<Node<i32, ()>>> = vec![];
+//@ rewrite
+let edges = x
+        .into_iter()
+        .map(|x|
+//@ with
+let ghost xs = x@;
+    let edges = vmap_collect(x, |x: Vec<i32>| -> (o: Arc<Edge<i32, ()>>)
+        requires x@.len() == 2,
+        ensures o.u == x@[0], o.v == x@[1], o.attributes.is_none(), o.weight == f64_nan(),
+    {
+//@ rewrite
+)
+        .collect::<Vec<Arc<Edge<i32, ()>>>>();
+//@ with
+ });
+//@ spec
+    requires
+        // rebuilding from the pair list does not fail
+        forall|x: Seq<Vec<i32>>, rr: Result<Graph<i32, ()>, Error>| #[trigger] complete_outcome(num_nodes, directed, x, rr) ==> rr.is_ok(),
+    ensures
+        // [C16.complete.one_edge_per_pair_of_distinct_nodes]
+        exists|x: Seq<Vec<i32>>| #[trigger] complete_outcome(num_nodes, directed, x, Ok(r)),
+//@ body
+    broadcast use axiom_i32_pair_key_model;
+//@ before Graph::new_from_nodes_and_edges(nodes, edges, specs).unwrap()
+    proof {
+        assert(specs == complete_specs(directed));
+        assert(node_names_of(nodes@) =~= Seq::<i32>::empty());
+        assert(edges_of(edges@) =~= pair_edges(xs));
+        assert forall|rr: Result<Graph<i32, ()>, Error>| #[trigger] nfne_rel(node_names_of(nodes@), edges_of(edges@), specs, rr)
+            implies rr.is_ok() && complete_outcome(num_nodes, directed, xs, rr) by {
+            assert(complete_outcome(num_nodes, directed, xs, rr));
+        }
+    }
 //@ end
 
 } // verus!
